@@ -65,7 +65,8 @@ class WC(CombinatorialClass[W]):
         self.proper = bool(proper) and not self.just_prefix
         if right is not None:
             if isinstance(right, dict):
-                right = WC.from_descriptor(dict(right, bytes=isinstance(self, WCB)))
+                right = WC.from_descriptor(dict(right, bytes=isinstance(self, WCB),
+                                                 hash="coarse" if isinstance(self, _CoarseHash) else None))
             right = right.with_(stats=self.stats)
             assert right.right is None, "pairs do not nest"
         self.right = right
@@ -118,14 +119,17 @@ class WC(CombinatorialClass[W]):
                 "alphabet": "".join(self.alphabet), "just_prefix": self.just_prefix,
                 "stats": [list(s) for s in self.stats], "bytes": isinstance(self, WCB),
                 "proper": self.proper,
+                "hash": "coarse" if isinstance(self, _CoarseHash) else None,
                 "right": None if self.right is None else self.right.descriptor()}
 
     @staticmethod
     def from_descriptor(d):
         cls = WCB if d.get("bytes") else WC
+        if d.get("hash") == "coarse":
+            cls = WCBH if d.get("bytes") else WCH
         right = d.get("right")
         if right is not None:
-            right = WC.from_descriptor(dict(right, bytes=bool(d.get("bytes"))))
+            right = WC.from_descriptor(dict(right, bytes=bool(d.get("bytes")), hash=d.get("hash")))
         return cls(d["prefix"], d["patterns"], d["alphabet"], d["just_prefix"],
                    [tuple(s) for s in d["stats"]], d.get("proper", False), right)
 
@@ -228,6 +232,23 @@ class WCB(WC):
         if right is not None:
             right = cls.from_bytes(right.encode())
         return cls(p, pats, al, jp, [tuple(s) for s in st], pr, right)
+
+
+class _CoarseHash:
+    """Equality as usual, but the hash sees only the length of the prefix and the atom
+    flag: many unequal classes share a hash (legitimate for a value object; dictionaries
+    and anything keyed by hash must still tell them apart)."""
+
+    def __hash__(self):
+        return hash((len(self.prefix), self.just_prefix))
+
+
+class WCH(_CoarseHash, WC):
+    pass
+
+
+class WCBH(_CoarseHash, WCB):
+    pass
 
 
 def atom_stats(cls, word, drop):
